@@ -25,6 +25,7 @@ int _right_descent(const dsplib::arr_real& x, int idx) {
 }   // namespace
 
 PeakList findpeaks(arr_real data, int npeaks) {
+    DSPLIB_ASSERT(!data.empty(), "input array must not be empty");
     PeakList peaks;
     for (int i = 0; i < npeaks; ++i) {
         const int imax = argmax(data);
